@@ -187,6 +187,8 @@ def render(prj):
                 out.append(pad + "}")
             elif k == "const":
                 out.append(pad + ".const " + st["name"] + " = " + render_expr(st["e"]))
+            elif k == "var":
+                out.append(pad + ".var " + st["name"] + " = " + render_expr(st["e"]))
             elif k == "setpc":
                 out.append(pad + "* = " + render_expr(st["e"]))
             elif k == "iftest":
